@@ -120,6 +120,10 @@ func RemoveDuplicateEntries(entries []string, allAlias string) (res []string) {
 
 func (user *User) UpdateUser(cmd []string) error {
 	for _, str := range cmd {
+		// An empty token carries no rule
+		if len(str) == 0 {
+			continue
+		}
 		// Parse enabled
 		if strings.EqualFold(str, "on") {
 			user.Enabled = true
@@ -158,13 +162,17 @@ func (user *User) UpdateUser(cmd []string) error {
 			user.IncludedCategories = []string{"*"}
 			continue
 		}
-		if len(str) > 3 && str[1] == '@' {
+		if len(str) > 2 && str[1] == '@' {
+			category := str[2:]
+			if strings.EqualFold(category, "all") {
+				category = "*"
+			}
 			if str[0] == '+' {
-				user.IncludedCategories = append(user.IncludedCategories, str[2:])
+				user.IncludedCategories = append(user.IncludedCategories, category)
 				continue
 			}
 			if str[0] == '-' {
-				user.ExcludedCategories = append(user.ExcludedCategories, str[2:])
+				user.ExcludedCategories = append(user.ExcludedCategories, category)
 				continue
 			}
 		}
@@ -214,12 +222,16 @@ func (user *User) UpdateUser(cmd []string) error {
 			continue
 		}
 		if len(str) > 2 && !slices.Contains([]uint8{'&', '@'}, str[1]) {
+			command := str[1:]
+			if strings.EqualFold(command, "all") {
+				command = "*"
+			}
 			if str[0] == '+' {
-				user.IncludedCommands = append(user.IncludedCommands, str[1:])
+				user.IncludedCommands = append(user.IncludedCommands, command)
 				continue
 			}
 			if str[0] == '-' {
-				user.ExcludedCommands = append(user.ExcludedCommands, str[1:])
+				user.ExcludedCommands = append(user.ExcludedCommands, command)
 				continue
 			}
 		}
@@ -280,7 +292,7 @@ func (user *User) Merge(new *User) {
 		if !slices.ContainsFunc(user.Passwords, func(p Password) bool {
 			return p.PasswordType == password.PasswordType && p.PasswordValue == password.PasswordValue
 		}) {
-			user.Passwords = append(user.Passwords, new.Passwords...)
+			user.Passwords = append(user.Passwords, password)
 		}
 	}
 
